@@ -173,6 +173,39 @@ def files(ctx: Ctx):
     rowcheck.model_rows(ctx, results, 'rows under background variants')
 
 
+def background_stage(ctx: Ctx, n: int, accept, shuffle_bg: bool = False) -> None:
+    """For the checks of other properties (C01, C05, C08): the same metamorphic relation on n designs with background variants,
+    reporting under the caller's property the violations whose kind/message `accept` selects."""
+    sub = Ctx('C06', ctx.tier, ctx.seed, None)
+    sub.rng = ctx.rng
+    sub.known, sub.matchers = [], {}
+    triples = make_designs(sub, n)
+    if shuffle_bg:      # records of the background VCF in any order (a plain-text VCF is read in file order)
+        for d, d2, L in triples:
+            ctx.rng.shuffle(d['bg'])
+    res = pool_map(run_pair, [(d, d2) for d, d2, L in triples], chunksize=2)
+    for (d, d2, L), (_, r, r2) in zip(triples, res):
+        compare(sub, d, d2, L, r, r2)
+    ctx.evaluations += sub.evaluations
+    ctx.count('background_pairs', len(triples))
+    for v in sub.violations:
+        kind = v['case'].get('kind', '')
+        if kind != 'row_not_dropped' and accept(kind, v['what']):
+            v['case']['via'] = 'background_pair'
+            ctx.violation('spec_violation', 'with background variants - ' + v['what'], v['case'])
+
+
+def replay_background(ctx: Ctx, case: dict, accept) -> bool:
+    d, lifted = _case_pair(case)
+    if lifted is None:
+        return False
+    sub = Ctx('C06', ctx.tier, ctx.seed, None)
+    sub.known, sub.matchers = [], {}
+    _, r, r2 = run_pair((d, lifted[0]))
+    compare(sub, d, lifted[0], lifted[1], r, r2)
+    return any(accept(x['case'].get('kind', ''), x['what']) and x['case'].get('kind') != 'row_not_dropped' for x in sub.violations)
+
+
 def run(ctx: Ctx):
     files(ctx)
     return {'rule': 'Metamorphic on the real tool: random SGE designs with background SNV/MNV anywhere and non-coding insertions/deletions upstream of, inside and '
